@@ -70,12 +70,16 @@ type exec struct {
 	all    []*input
 	gens   map[uint]int
 
-	live    []int // delivery indices in flight, in delivery order
-	calls   map[int]*call
-	opIdx   atomic.Int64
-	ad      adapter
-	queued  atomic.Int32
-	created atomic.Bool
+	live     []int // delivery indices in flight, in delivery order
+	calls    map[int]*call
+	opIdx    atomic.Int64
+	ad       adapter
+	queued   atomic.Int32
+	relSince atomic.Int32 // releases issued since the last quiescent point (the discipline consumes them a few per loop round)
+	cleanup  atomic.Bool  // the harness has started to tear the run down: terminations from here on are its own doing
+	stopA    atomic.Bool  // Stop()/cancel has been issued (survives an abandoned bubble)
+	faultA   atomic.Bool  // the fault of the plan has been injected (survives an abandoned bubble)
+	created  atomic.Bool
 
 	leakScan   bool
 	terminated bool
@@ -271,6 +275,7 @@ func (e *exec) maybeFault(prios []uint, dividend uint, dist map[uint]uint, eligi
 		}
 	}
 	if done {
+		e.faultA.Store(true)
 		e.mu.Lock()
 		e.tr.FaultCall = e.tr.DivCalls
 		e.tr.FaultDelivs = len(e.tr.Deliveries)
@@ -490,7 +495,7 @@ func (e *exec) pollErr() {
 // markTerminatedLocked records the first observation of termination together with the
 // state the harness knows at that moment. Caller holds e.mu.
 func (e *exec) markTerminatedLocked(how string) {
-	if e.terminated {
+	if e.terminated || e.cleanup.Load() {
 		return
 	}
 	e.terminated = true
@@ -545,7 +550,10 @@ func (e *exec) drain() int {
 	start := count()
 	idle := 0
 	e.wait()
-	for round := 0; idle < 2 && round < 100000; round++ {
+	// every release issued since the last quiescent point may still sit in the feedback channel:
+	// an idle discipline takes only a few of them per loop round, so give it a round per release
+	need := 2 + int(e.relSince.Swap(0))
+	for round := 0; idle < need && round < 100000; round++ {
 		before := count()
 		e.recvAvailable(-1)
 		e.pollErr()
@@ -598,6 +606,7 @@ func (e *exec) releaseOne(pos int) {
 	di := e.live[pos]
 	e.live = append(e.live[:pos], e.live[pos+1:]...)
 	e.tr.Deliveries[di].Released = true
+	e.relSince.Add(1)
 	d := e.tr.Deliveries[di]
 	var c *call
 	if e.s.Simple {
@@ -976,6 +985,7 @@ func (e *exec) gracefulStop() {
 // nothing more is delivered afterwards.
 func (e *exec) stop(kind string, n int) {
 	e.wait()
+	e.stopA.Store(true)
 	e.mu.Lock()
 	e.stopIssued = true
 	e.tr.StopIssuedAt = e.now()
@@ -1134,9 +1144,11 @@ func execute1(t *testing.T, s Script, leakScan bool, budget time.Duration) Trace
 	if leakScan {
 		before = bubble.LibGoroutines()
 	}
+	var ep atomic.Pointer[exec]
 	res := bubble.RunBudget(t, budget, func() {
 		e := &exec{s: s, tr: &tr, epoch: time.Now(), quit: make(chan struct{}), inputs: map[uint]*input{}, gens: map[uint]int{},
 			calls: map[int]*call{}, removedSet: map[uint]bool{}, everSet: map[uint]bool{}, configured: map[uint]bool{}, leakScan: leakScan}
+		ep.Store(e)
 		unbuf := 0
 		for _, in := range s.Ins {
 			if in.Cap == 0 {
@@ -1181,6 +1193,7 @@ func execute1(t *testing.T, s Script, leakScan bool, budget time.Duration) Trace
 				scanned = true
 			}
 			// clean up: stop the discipline if it still runs, end the helpers
+			e.cleanup.Store(true)
 			if e.ad.cancel != nil {
 				e.ad.cancel()
 			}
@@ -1198,6 +1211,10 @@ func execute1(t *testing.T, s Script, leakScan bool, budget time.Duration) Trace
 			for i := range tr.Inputs {
 				if tr.Inputs[i].Kind == "add" && !tr.Inputs[i].Returned {
 					for j := range tr.InStat {
+						// the channel it was meant to replace stayed registered
+						if tr.InStat[j].P == tr.Inputs[i].P && tr.InStat[j].Gen == tr.Inputs[i].Gen-1 {
+							tr.InStat[j].Replaced = false
+						}
 						if tr.InStat[j].P == tr.Inputs[i].P && tr.InStat[j].Gen == tr.Inputs[i].Gen {
 							tr.InStat[j].Unregistered = true
 						}
@@ -1236,12 +1253,15 @@ func execute1(t *testing.T, s Script, leakScan bool, budget time.Duration) Trace
 	})
 	if res.Spin {
 		// the abandoned bubble may still be writing to tr: report nothing but the verdict
-		return Trace{Spin: true, Deadlock: res.Deadlock, GStopIssuedAt: -1, StopIssuedAt: -1, MaxPerPrio: map[uint]int{}}
+		sp := Trace{Spin: true, Deadlock: res.Deadlock, GStopIssuedAt: -1, StopIssuedAt: -1, MaxPerPrio: map[uint]int{}}
+		if e := ep.Load(); e != nil {
+			sp.SpinAfterStop = e.stopA.Load()
+			sp.SpinAfterFault = e.faultA.Load()
+		}
+		return sp
 	}
 	tr.Deadlock = res.Deadlock
-	if res.Panic != "" {
-		tr.Deadlock = "harness panic: " + res.Panic
-	}
+	tr.HarnessPanic = res.Panic
 	return tr
 }
 
@@ -1252,6 +1272,7 @@ func Execute(t *testing.T, s Script, leakScan bool) Trace {
 	tr := execute1(t, s, leakScan, b)
 	if tr.Spin && b > 0 {
 		tr = execute1(t, s, leakScan, 3*b)
+		tr.RetriedAfterSpin = true
 	}
 	return tr
 }
